@@ -982,3 +982,14 @@ Qed.
 Theorem arms_are_fieldless_in_order paren t vs tbl :
   eval_consts t (consts paren vs) = Some tbl -> map fst tbl = filter fieldless vs.
 Proof. intros H. rewrite (eval_consts_fst _ _ _ H). apply consts_variants. Qed.
+
+(** with no hypothesis on ranges or distinctness: whatever a compiling expansion accepts is a field-less variant of
+    THIS enum (the arms cannot name anything else) *)
+Theorem ok_is_member paren t vs f n v :
+  try_from paren t vs = Some f -> f n = Ok v -> In v vs /\ fieldless v = true.
+Proof.
+  unfold try_from. destruct (eval_consts t (consts paren vs)) as [tbl|] eqn:E; cbn [option_map]; [|discriminate].
+  intros H. inversion H; subst f. intros Hf. apply first_match_ok_in in Hf.
+  apply (in_map fst) in Hf. cbn [fst] in Hf.
+  rewrite (arms_are_fieldless_in_order _ _ _ _ E) in Hf. apply filter_In in Hf. exact Hf.
+Qed.
